@@ -162,6 +162,38 @@ def check(ctx):
     _r3(ctx, pkg)
     _r6(ctx)
     _r7(ctx, pkg)
+    _r8(ctx, pkg)
+    # "... or is refused with an error": what the grain model refuses is refused by the renderer too -- the emitted expression is
+    # reac.rateexpr(grain) itself, nothing catches NotImplementedError and substitutes a rate (shared with C06.R1)
+    from .c06 import _r1 as assignment_rule
+    ctx.absorb(assignment_rule, "R9")
+
+
+def _r8(ctx, pkg):
+    """First stage of the lookup order: a value set on a Species OBJECT (binding energy, yield) travels with that object.  A
+    reaction built from Species instances keeps those very instances -- Species.__copy__ rebuilds from the name and symbols only, so
+    a copy silently falls back to the tables."""
+    fn = pkg.cls("Component").methods.get("_create_species")
+    if fn is None:
+        ctx.missing("R8", "Component._create_species", ("naunet/component.py", 0), "method vanished")
+        return
+    ctx.saw("naunet/component.py", "Component._create_species")
+    arg = fn.args.args[1].arg if len(fn.args.args) > 1 else None
+    ok = False
+    found = ""
+    for n in ast.walk(fn):
+        if isinstance(n, ast.If) and re.fullmatch(rf"isinstance\({arg}, Species\)", ast.unparse(n.test)):
+            rets = [r for r in n.body if isinstance(r, ast.Return)]
+            found = ast.unparse(rets[0].value) if rets else "no return"
+            ok = len(n.body) == 1 and bool(rets) and isinstance(rets[0].value, ast.Name) and rets[0].value.id == arg
+    ctx.check(ok, "R8", "Component._create_species:instance kept", ("naunet/component.py", fn.lineno),
+              "a Species instance handed in is the instance stored" if ok else
+              "a Species instance handed in is replaced by a copy / re-parse: values set on the object (explicit binding energy, photodesorption yield, custom alias) are lost and "
+              "the rate falls back to the user / built-in table", expected=f"if isinstance({arg}, Species): return {arg}", found=found)
+    cp = pkg.cls("Species").methods.get("__copy__")
+    if cp is not None:
+        carried = {k.arg for c in ast.walk(cp) if isinstance(c, ast.Call) for k in c.keywords} | {n.attr for n in ast.walk(cp) if isinstance(n, ast.Attribute)}
+        ctx.note(f"Species.__copy__ carries {sorted(carried)} (explicit binding energy / yield are not among them: copies are used for aliases only)")
 
 
 CHEMDATA = "naunet/chemistrydata/__init__.py"
@@ -506,6 +538,8 @@ HH = "naunet/grains/hh93grain.py"
 RR = "naunet/grains/rr07grain.py"
 GR = "naunet/grains/grain.py"
 MUTANTS = [
+    {"name": "create-species-copies-instances", "file": "naunet/component.py", "old": "        if isinstance(species_name, Species):\n            return species_name\n", "new": "        if isinstance(species_name, Species):\n            return __import__('copy').copy(species_name)\n", "rules": ["R8"]},
+    {"name": "renderer-swallows-not-implemented", "file": "naunet/templateloader.py", "old": "            rateexprs = [\n                reac.rateexpr(grain_dict.get(reac.grain_group)) for reac in reactions\n            ]", "new": "            rateexprs = []\n            for reac in reactions:\n                try:\n                    rateexprs.append(reac.rateexpr(grain_dict.get(reac.grain_group)))\n                except NotImplementedError:\n                    rateexprs.append('0.0')", "rules": ["R9"]},
     {"name": "binding-table-key-truncated", "file": "naunet/chemistrydata/__init__.py", "old": "                binding_energy.update({elem: float(eb)})", "new": "                binding_energy.update({elem.rstrip('+-'): float(eb)})", "rules": ["R7"]},
     {"name": "binding-table-third-column", "file": "naunet/chemistrydata/__init__.py", "old": "                elem, eb, *other = line.split()", "new": "                elem, _, eb, *other = line.split()", "rules": ["R7"]},
     {"name": "surface-barrier-at-gas-temperature", "file": HH, "old": '        kappa = f"exp(-{a}/{tdust})"', "new": '        kappa = f"exp(-{a}/{reac.symbols.temperature.symbol})"', "rules": ["R5"]},
